@@ -99,7 +99,8 @@ class ClassicalGate(Box):
 
     def lambdify(self, *symbols, **kwargs):
         from sympy import lambdify
-        data = lambdify(symbols, self.data, dict(kwargs, modules=Tensor.np))
+        data = lambdify(symbols, list(self.data.flatten()),
+                        **dict({'modules': Tensor.np}, **kwargs))
         return lambda *xs: ClassicalGate(
             self.name, self.dom, self.cod, data(*xs))
 
